@@ -396,3 +396,91 @@ def install_helpers2(reg):
                     ("only_nfvs", z3.ForAll([kn], z3.Implies(c.retained_set[kn] >= 0, MemN(c.nfvs, kn)))), ("wf", T.wf_space(c.retained_set)),
                     ("prefix_assigned", z3.ForAll([j_], z3.Implies(z3.And(0 <= j_, j_ < c.i), c.retained_set[LN.at(c.nfvs)[j_]] >= 0)))])},
     ))
+
+
+def install_edge_accessors(reg):
+    """edge_stable_motif / edge_all_stable_motifs verified against their bodies (C07, C08); call sites keep the pure view"""
+    a_ = z3.Int("a!ea")
+    old = reg.contracts["biobalm.succession_diagram.SuccessionDiagram.edge_stable_motif"]
+    reg.add(Contract(
+        "biobalm.succession_diagram.SuccessionDiagram.edge_stable_motif",
+        params=old.params, defaults=old.defaults, result_type=TSpace, properties=("C08", "C07", "C06"),
+        requires=[lambda c: c.self.edge[c.parent_id][c.child_id], lambda c: S.valid(c.self, c.parent_id)],
+        ensures=[("stored_first_motif_optionally_without_the_parents_values", lambda c: c.result == z3.If(
+            c.reduced, reduce_space(c.self.motif0[c.parent_id][c.child_id], c.self.space[c.parent_id]), c.self.motif0[c.parent_id][c.child_id])),
+                 ("nothing_modified", lambda c: S.frame_nodes(c.self, c.old.self) if False else z3.And(
+                     c.self.K == c.old.self.K, c.self.motif0 == c.old.self.motif0, c.self.space == c.old.self.space, c.self.edge == c.old.self.edge))],
+        pure=old.pure), method_of="SD")
+
+    def all_post(c):
+        ms = c.self.motifs[c.parent_id][c.child_id]
+        sp = c.self.space[c.parent_id]
+        return z3.If(c.reduced,
+                     z3.And(LS.len(c.result) == LS.len(ms), z3.ForAll([a_], z3.Implies(z3.And(0 <= a_, a_ < LS.len(ms)),
+                                                                                         LS.at(c.result)[a_] == reduce_space(LS.at(ms)[a_], sp)))),
+                     c.result == ms)
+    reg.add(Contract(
+        "biobalm.succession_diagram.SuccessionDiagram.edge_all_stable_motifs",
+        params=[("self", SD), ("parent_id", TInt), ("child_id", TInt), ("reduced", TBool)], defaults={"reduced": False}, result_type=LS,
+        properties=("C07", "C06"),
+        requires=[lambda c: c.self.edge[c.parent_id][c.child_id], lambda c: S.valid(c.self, c.parent_id),
+                  lambda c: LS.len(c.self.motifs[c.parent_id][c.child_id]) >= 0],
+        ensures=[("all_recorded_motifs_in_order_optionally_without_the_parents_values", all_post)],
+        local_types={"result": LS, "all_motifs": LS, "node_space": TSpace},
+        loops={0: LoopContract("for m in all_motifs", lambda c: [
+            ("reduced_prefix", z3.And(LS.len(c.local("result")) == c.i, z3.ForAll([a_], z3.Implies(
+                z3.And(0 <= a_, a_ < c.i), LS.at(c.local("result"))[a_] == reduce_space(LS.at(c.all_motifs)[a_], c.node_space)))))])},
+    ), method_of="SD")
+
+
+def install_nfvs(reg):
+    """node_percolated_nfvs verified against its body (C08, C16): cache discipline + the RIGHT feedback-vertex-set variant.
+    feedback_vertex_set (AEON wrapper) is assumed: with parity 'negative' or without parity the result hits every negative cycle."""
+    from pyvc import engine as E_
+
+    def fvs_apply(eng, st, c, argmap, exprmap, node):
+        bn = argmap["network"]
+        if bn.ty != TNetObj:
+            raise OutOfSubset("feedback_vertex_set(<not a BooleanNetwork>)")
+        par = argmap.get("parity")
+        res = LN.fresh("fvs")
+        st.assume(LN.len(res.t) >= 0)
+        st.assume(z3.ForAll([kn], z3.Implies(MemN(res.t, kn), T.isvar(bn_net_of(bn.t), kn))))
+        st.assume(S.NamesOf(bn.t, res.t))
+        if par is None or par.ty == TNoneLit or (isinstance(par, E_._StrLit) and par.s == "negative"):
+            st.assume(NFVSOf(bn.t, res.t))          # a full FVS hits every cycle, in particular every negative one
+        elif not (isinstance(par, E_._StrLit) and par.s == "positive"):
+            raise OutOfSubset("feedback_vertex_set(parity=<not a literal>)")
+        return res
+    reg.add(Contract(
+        "biobalm.interaction_graph_utils.feedback_vertex_set", trusted=True,
+        params=[("network", None), ("parity", None), ("subgraph", None)], defaults={"parity": None, "subgraph": None},
+        properties=("C08",), custom_apply=fvs_apply,
+        note="ASSUMED (AEON RegulatoryGraph.feedback_vertex_set): the returned variables hit every cycle of the requested parity "
+             "(every cycle when no parity is given); deterministic"))
+
+    from .attractors import structure_unchanged
+    pick = lambda fn, nm: (lambda c: dict(fn(c))[nm])
+    identical_caches = lambda v, o: z3.And(v.pbn == o.pbn, v.pnfvs == o.pnfvs, v.ppn == o.ppn, structure_unchanged(v, o))
+    old = reg.contracts["biobalm.succession_diagram.SuccessionDiagram.node_percolated_nfvs"]
+    INV_ = ["inv." + nm for nm, _ in S.inv(M.View(_dummy_ho()))]
+    reg.add(Contract(
+        "biobalm.succession_diagram.SuccessionDiagram.node_percolated_nfvs",
+        params=old.params, defaults=old.defaults, result_type=LN, properties=("C08", "C16", "C14"),
+        requires=[lambda c: S.inv_all(c.self), lambda c: S.valid(c.self, c.node_id)],
+        modifies={"self": ["pbn", "pnfvs"]},
+        ensures=[("is_nfvs", lambda c: NFVSOf(T.PercNetObj(c.old.self.net, c.old.self.space[c.node_id]), c.result)),
+                 ("names_of_percolated_network", lambda c: z3.ForAll([kn], z3.Implies(
+                     MemN(c.result, kn), T.isvar(bn_net_of(T.PercNetObj(c.old.self.net, c.old.self.space[c.node_id])), kn)))),
+                 ("cached_afterwards", lambda c: c.self.pnfvs[c.node_id] == M.OptLN.some(c.result)),
+                 ("only_caches", lambda c: structure_unchanged(c.self, c.old.self))] +
+                [(x, pick(lambda c: [("inv." + a, g) for a, g in S.inv(c.self)], x)) for x in INV_],
+        raises={"KeyError": [("only_when_not_computed_and_not_asked_to", lambda c: z3.And(
+            M.OptLN.is_none(c.old.self.pnfvs[c.node_id]), z3.Not(c.compute), identical_caches(c.self, c.old.self)))]},
+        may_raise={"KeyError": {"when": lambda c: z3.Not(c.compute)}},
+        axioms=[z3.ForAll([z3.Const("b!no", T.BNS), z3.Const("l!no", LN.sort())], S.NamesOf(z3.Const("b!no", T.BNS), z3.Const("l!no", LN.sort())) == z3.ForAll(
+            [kn], z3.Implies(MemN(z3.Const("l!no", LN.sort()), kn), T.isvar(bn_net_of(z3.Const("b!no", T.BNS)), kn))),
+            patterns=[S.NamesOf(z3.Const("b!no", T.BNS), z3.Const("l!no", LN.sort()))])],
+        lemmas=[("L5.full_space_percolates_to_empty_network", lambda c: z3.Implies(
+            T.card(c.self.space[c.node_id]) == T.nvars(bn_net_of(c.self.net)), T.PercNetObj(c.self.net, c.self.space[c.node_id]) == T.EmptyBN))],
+        note="cache discipline and choice of the FVS variant; the FVS computation itself is AEON's (assumed)"), method_of="SD")
